@@ -32,12 +32,15 @@ import Pog.Lemmas.AliasCover
         calcRel_resolves                           full (well-formed names, current file inside the package)
         calcRel_none_iff                           `None` exactly for the self-import
   (b) name de-collision: C20.
-  (c) annotation text
-      ✗ annotation_evaluable_full  every formatted annotation whose parts are evaluable is evaluable — FALSE:
-        annotation_evaluable_counterexample        ✗ witness {forward_ref, optional} ↦ `"Node" | None`
-        annotation_evaluable_counterexample_union  ✗ witness optional anyOf/oneOf with ONE self-referencing member
-        annotation_evaluable_partial               partial   ¬(optional ∧ (forward_ref ∨ base is a str literal ∨ base is None))
-        annotation_not_evaluable                   the excluded class always fails (the condition is exact)
+  (c) annotation text (F1 repaired: the optional marker of a text that is ONE string literal - a quoted forward reference - is
+      placed inside the quotes, `"Node | None"`; before, `"Node" | None` raised TypeError when the class body was executed)
+      ✗ annotation_evaluable_full  every formatted annotation whose parts are evaluable is evaluable — FALSE only for `None | None`:
+        annotation_evaluable_partial               partial   ¬(optional ∧ not a forward reference ∧ base is None)
+        annotation_not_evaluable                   the excluded class always fails (the condition is exact): `None | None`
+        optional_forward_ref_evaluable             full      an optional forward reference to a bare name evaluates (the former F1 class)
+        optional_string_literal_evaluable          full      … and so does an optional, already quoted base (single-member anyOf/oneOf)
+        annotation_evaluable_former_witness        {forward_ref, optional} ↦ `"Node | None"`, evaluable
+        annotation_evaluable_former_witness_union  optional anyOf/oneOf with ONE self-referencing member ↦ `"Node | None"`
         array_of_self_evaluable                    `List["Node"]`, `List["Node"] | None` are fine
   (d) exception aliases
       aliases_cover_raises         full      every alias class an endpoint raises/imports is defined (F3 repaired: a declared
@@ -186,60 +189,85 @@ theorem format_text_agrees (r : Resolved) :
     (formatResolved r).map render = formatText (render r.ty) r.isOptional r.isForwardRef :=
   render_formatResolved r
 
-/-- ✗ an optional self-reference: `ResolvedType("Node", is_optional, is_forward_ref)` is formatted as
-    `"Node" | None`, a `TypeError` when the class body is executed. -/
-theorem annotation_evaluable_counterexample :
+/-- The former witness of F1, an optional self-reference: `ResolvedType("Node", is_optional, is_forward_ref)` is now formatted as
+    `"Node | None"` - one string literal, which evaluates (it was `"Node" | None`, a `TypeError` when the class body is executed). -/
+theorem annotation_evaluable_former_witness :
     evalOK (.name (s "Node")) = true ∧
-    formatText (s "Node") true true = some (s "\"Node\" | None") ∧
-    (formatResolved ⟨.name (s "Node"), true, true⟩).map render = some (s "\"Node\" | None") ∧
-    (formatResolved ⟨.name (s "Node"), true, true⟩).map evalOK = some false := by
+    formatText (s "Node") true true = some (s "\"Node | None\"") ∧
+    (formatResolved ⟨.name (s "Node"), true, true⟩).map render = some (s "\"Node | None\"") ∧
+    (formatResolved ⟨.name (s "Node"), true, true⟩).map evalOK = some true := by
   decide +kernel
 
-/-- ✗ the same through a union: an optional `anyOf`/`oneOf` whose ONLY member is the schema itself. -/
-theorem annotation_evaluable_counterexample_union :
-    (formatResolved (resolveTree (.union [.model (s "Node") true]) false)).map render = some (s "\"Node\" | None") ∧
-    (formatResolved (resolveTree (.union [.model (s "Node") true]) false)).map evalOK = some false := by
+/-- The same through a union: an optional `anyOf`/`oneOf` whose ONLY member is the schema itself (the resolver hands over the
+    already quoted `"Node"` with `is_forward_ref = False`). -/
+theorem annotation_evaluable_former_witness_union :
+    (formatResolved (resolveTree (.union [.model (s "Node") true]) false)).map render = some (s "\"Node | None\"") ∧
+    (formatResolved (resolveTree (.union [.model (s "Node") true]) false)).map evalOK = some true := by
   decide +kernel
 
 /-- If the resolved type evaluates (to kind `k`), a forward reference is a bare name (no `"` inside), and
-    NOT (optional ∧ (forward reference ∨ `k` is a string literal ∨ `k` is `None`)), the formatted annotation
-    evaluates. -/
+    NOT (optional ∧ not a forward reference ∧ `k` is `None`), the formatted annotation evaluates. -/
 theorem annotation_evaluable_partial (r : Resolved) (k : Kind) (hk : evalKind r.ty = some k)
     (hq : r.isForwardRef = true → '"' ∉ render r.ty)
-    (hc : ¬ (r.isOptional = true ∧ (r.isForwardRef = true ∨ k = .strV ∨ k = .noneV)))
-    (a : Ann) (ha : formatResolved r = some a) : evalOK a = true := by
-  apply format_evaluable r k hk hq _ a ha
-  intro hopt
-  refine ⟨?_, ?_⟩
-  · cases hf : r.isForwardRef with
-    | false => rfl
-    | true => exact absurd ⟨hopt, Or.inl hf⟩ hc
-  · cases k with
-    | ty => exact Or.inl rfl
-    | alias => exact Or.inr rfl
-    | noneV => exact absurd ⟨hopt, Or.inr (Or.inr rfl)⟩ hc
-    | strV => exact absurd ⟨hopt, Or.inr (Or.inl rfl)⟩ hc
+    (hc : ¬ (r.isOptional = true ∧ r.isForwardRef = false ∧ k = .noneV))
+    (a : Ann) (ha : formatResolved r = some a) : evalOK a = true :=
+  format_evaluable r k hk hq (fun hopt h => hc ⟨hopt, h⟩) a ha
 
 /-- optional `List["Node"]`: kind `alias`, not a forward reference — the hypotheses hold. -/
 example : evalOK (.bor (.sub (.name (s "List")) [.quoted (s "Node")]) .none_) = true :=
   annotation_evaluable_partial ⟨.sub (.name (s "List")) [.quoted (s "Node")], true, false⟩ .alias (by decide +kernel)
     (by intro h; cases h) (by decide) _ rfl
 
+/-- optional forward reference `Node`: the class that used to be excluded satisfies the hypotheses now. -/
+example : evalOK (.quoted (s "Node | None")) = true :=
+  annotation_evaluable_partial ⟨.name (s "Node"), true, true⟩ .ty (by decide +kernel) (by intro _; decide +kernel)
+    (by decide) _ rfl
 
-/-- The excluded class really fails: optional ∧ (forward reference ∨ string literal ∨ `None`) is formatted
-    (no legacy `Optional[`, no `| None` yet) to something CPython cannot evaluate. -/
-theorem annotation_not_evaluable (r : Resolved) (k : Kind) (hk : evalKind r.ty = some k)
-    (hq : r.isForwardRef = true → '"' ∉ render r.ty)
-    (hopt : r.isOptional = true) (hbad : r.isForwardRef = true ∨ k = .strV ∨ k = .noneV)
-    (hpre : startsWith (render r.ty) optionalPrefix = false)
-    (hsuf : endsWith (render (quoteIfFwd r.ty r.isForwardRef)) orNoneSuffix = false) :
+/-- The class F1 was about, at full strength: an OPTIONAL FORWARD REFERENCE whose text is a bare name (whatever it evaluates
+    to) is formatted to an annotation that evaluates - for every such `ResolvedType`. -/
+theorem optional_forward_ref_evaluable (r : Resolved) (k : Kind) (hk : evalKind r.ty = some k)
+    (hf : r.isForwardRef = true) (hq : '"' ∉ render r.ty)
+    (a : Ann) (ha : formatResolved r = some a) : evalOK a = true :=
+  format_evaluable r k hk (fun _ => hq) (fun _ h => by rw [hf] at h; cases h.1) a ha
+
+/-- `Node`, optional, forward reference: the hypotheses hold, the annotation is `"Node | None"`. -/
+example : evalOK (.quoted (s "Node | None")) = true :=
+  optional_forward_ref_evaluable ⟨.name (s "Node"), true, true⟩ .ty (by decide +kernel) rfl (by decide +kernel) _ rfl
+
+/-- … and an optional base that is already a string literal (what `_resolve_any_of` / `_resolve_one_of` return for a single
+    self-referencing member): evaluable for every literal. -/
+theorem optional_string_literal_evaluable (q : Str) (hq : '"' ∉ q) (opt fwd : Bool)
+    (a : Ann) (ha : formatResolved ⟨.quoted q, opt, fwd⟩ = some a) : evalOK a = true := by
+  cases fwd with
+  | false =>
+    exact format_evaluable ⟨.quoted q, opt, false⟩ .strV (evalKind_quoted q hq) (by intro h; cases h)
+      (fun _ h => by cases h.2) a ha
+  | true =>
+    -- a forward reference whose text already starts with a quote is not quoted again
+    have hqa : quoteIfFwd (.quoted q) true = .quoted q := by
+      unfold quoteIfFwd
+      rw [render_quoted]
+      simp [startsWith]
+    have : formatResolved ⟨.quoted q, opt, true⟩ = formatResolved ⟨.quoted q, opt, false⟩ := by
+      unfold formatResolved
+      have hqb : quoteIfFwd (.quoted q) false = .quoted q := by simp [quoteIfFwd]
+      simp only [hqa, hqb]
+    rw [this] at ha
+    exact format_evaluable ⟨.quoted q, opt, false⟩ .strV (evalKind_quoted q hq) (by intro h; cases h)
+      (fun _ h => by cases h.2) a ha
+
+example : evalOK (.quoted (s "Node | None")) = true :=
+  optional_string_literal_evaluable (s "Node") (by decide +kernel) true false _ rfl
+
+/-- The excluded class really fails: optional ∧ not a forward reference ∧ the base is `None` is formatted to `None | None`,
+    which CPython cannot evaluate (no resolver returns the text `None`; recorded as a function-level hazard). -/
+theorem annotation_not_evaluable (r : Resolved) (hk : evalKind r.ty = some .noneV)
+    (hopt : r.isOptional = true) (hf : r.isForwardRef = false) :
     ∃ a, formatResolved r = some a ∧ evalOK a = false :=
-  format_not_evaluable r k hk hq hopt hbad hpre hsuf
+  format_not_evaluable r hk hopt hf
 
-/-- the witness of `annotation_evaluable_counterexample` is an instance of the excluded class -/
-example : ∃ a, formatResolved ⟨.name (s "Node"), true, true⟩ = some a ∧ evalOK a = false :=
-  annotation_not_evaluable ⟨.name (s "Node"), true, true⟩ .ty (by decide +kernel) (by intro _; decide +kernel) rfl
-    (Or.inl rfl) (by decide +kernel) (by decide +kernel)
+example : ∃ a, formatResolved ⟨.none_, true, false⟩ = some a ∧ evalOK a = false :=
+  annotation_not_evaluable ⟨.none_, true, false⟩ (by decide +kernel) rfl rfl
 
 /-- Arrays of the schema itself are fine, optional or not: `List["Node"]`, `List["Node"] | None`. -/
 theorem array_of_self_evaluable (item : Resolved) (k : Kind) (hk : evalKind item.ty = some k)
